@@ -61,7 +61,8 @@ func runStress(c stressCase) stressResult {
 		atomic.AddInt32(&occ[g], -1)
 		atomic.AddInt64(&ran, 1)
 	}
-	s.Handle("g.$grp.$id", res.Group("${grp}"), res.Call("do", func(rq res.CallRequest) {
+	// a group id put together from two tokens ("g" + number): svc.g.g.<n>.<id>
+	s.Handle("g.$a.$n.$id", res.Group("${a}${n}"), res.Call("do", func(rq res.CallRequest) {
 		var a struct{ G, I int }
 		rq.ParseParams(&a)
 		body(a.G, c.Producers, a.I)
@@ -98,11 +99,11 @@ func runStress(c stressCase) stressResult {
 				gg, ii := g, i
 				switch i % 3 {
 				case 0:
-					_ = s.With(fmt.Sprintf("svc.g.g%d.%d", g, p), func(res.Resource) { body(gg, p, ii) })
+					_ = s.With(fmt.Sprintf("svc.g.g.%d.%d", g, p), func(res.Resource) { body(gg, p, ii) })
 				case 1:
 					s.WithGroup(fmt.Sprintf("g%d", g), func(*res.Service) { body(gg, p, ii) })
 				default:
-					rr, err := s.Resource(fmt.Sprintf("svc.g.g%d.x", g))
+					rr, err := s.Resource(fmt.Sprintf("svc.g.g.%d.x", g))
 					if err == nil {
 						s.WithResource(rr, func() { body(gg, p, ii) })
 					}
@@ -116,7 +117,7 @@ func runStress(c stressCase) stressResult {
 		defer wg.Done()
 		for i := 0; i < c.Requests; i++ {
 			g := i % c.Groups
-			for conn.Deliver(fmt.Sprintf("call.svc.g.g%d.r.do", g), fmt.Sprintf("_INBOX.s%d", i), []byte(fmt.Sprintf(`{"params":{"G":%d,"I":%d}}`, g, i))) == 0 {
+			for conn.Deliver(fmt.Sprintf("call.svc.g.g.%d.r.do", g), fmt.Sprintf("_INBOX.s%d", i), []byte(fmt.Sprintf(`{"params":{"G":%d,"I":%d}}`, g, i))) == 0 {
 				runtime.Gosched()
 			}
 		}
